@@ -154,7 +154,7 @@ func cmdCheck(args []string) {
 	var skippedFns []string
 	for _, k := range P.sortedFuncKeys() {
 		fn := P.Funcs[k]
-		if len(fn.Blocks) == 0 || inPlaceClosure(fn) {
+		if len(fn.Blocks) == 0 || (inPlaceClosure(fn) && !P.specFor(fn).hasContract()) {
 			continue
 		}
 		ps := P.funcProps(fn)
